@@ -1,2 +1,370 @@
--- C17 property theorems (to be written)
-import Nq.Basic
+/-
+  C17 — Address quoting and parsing agree; header recipients become the envelope.
+
+  Models: `Nq.Quote` (quote.c), `Nq.Token822` (token822.c), `Nq.SmtpAddr` (qmail-remote.c addrmangle,
+  commands.c, qmail-smtpd.c addrparse), `Nq.Inject` (qmail-inject.c, headerbody.c, hfield.c); tied to
+  the source by the translator (`Nq.Gen.QuoteOk/AtomOk/Hfield`) and by the differential harnesses
+  `harness/c17_quote.c`, `harness/c17_inject.c`.  Only property theorems live here.
+-/
+import Nq.Lemmas.C17Smtp
+import Nq.Lemmas.C17Envelope
+
+namespace Nq.Props.C17
+open Nq Nq.Quote Nq.Token822 Nq.SmtpAddr Nq.Inject Nq.Spec.Addr Nq.Lemmas.C17
+
+/-- **The quoter's table is inside the parser's.**  Every byte that `quote_need` leaves unquoted (the
+`ok[]` table of quote.c, regenerated from the source), other than '.', is for token822.c an ordinary
+atom byte: not a single-character token, not white space, not a delimiter, accepted by `atomok`, not
+objected to by `atomcheck`; and for qmail-smtpd's `addrparse` it is neither `>` nor `"` nor `\`.
+('.' itself is the DOT token and ends an atom; '@' is never left unquoted.) -/
+theorem C17_ok_subset_atomok (c : Byte) (h : okChar c = true) (hd : c ≠ DOT) :
+    specialTok c = none ∧ isWs c = false ∧ c ≠ RPAR ∧ c ≠ RBRK ∧ c ≠ LPAR ∧ c ≠ Token822.DQ ∧ c ≠ LBRK ∧
+    c ≠ Token822.BSL ∧ atomok c = true ∧ atomBad c = false ∧ c ≠ 62 ∧ c ≠ AT ∧ c ≠ LF :=
+  plain_facts (by simp [plainByte, h, hd])
+
+/-- **Header round trip.**  For EVERY local part (any bytes at all, including NUL, LF, quotes,
+backslashes, 8-bit) and every sane domain (dot-atom of `ok[]` bytes, or one domain literal): the address
+quoted by `quote2` and tokenized by `token822_parse` is accepted, `token822_unquote` gives back exactly
+`local@domain`, and the tokens have the shape `word(.word)* @ domain`. -/
+theorem C17_header_roundtrip (loc dom : Bytes) (hd : saneDomain dom = true) :
+    ∃ ts, parse (quote2 (loc ++ AT :: dom)) = some ts ∧ unquote ts = loc ++ AT :: dom ∧ mailboxShape ts = true :=
+  header_roundtrip_core loc dom hd
+
+/-- Complement (a lone box name, as `dorecip`/`-f` may be given): without any '@' the whole string is the box. -/
+theorem C17_header_roundtrip_nohost (s : Bytes) (h : AT ∉ s) :
+    ∃ ts, parse (quote2 s) = some ts ∧ unquote ts = s := by
+  cases s with
+  | nil => exact ⟨[], by simp [quote2, parse, prun, pfinish], rfl⟩
+  | cons x xs =>
+    have hq : quote2 (x :: xs) = quote (x :: xs) := by
+      simp [quote2, splitLast_none AT (x :: xs) h]
+    rw [hq]
+    unfold parse quote
+    by_cases hn : quoteNeed (x :: xs) = true
+    · simp only [hn, if_true]
+      refine ⟨[.quote (x :: xs)], ?_, by simp [unquote, unqTok]⟩
+      have e : doit (x :: xs) = Token822.DQ :: (escape (x :: xs) ++ Token822.DQ :: []) := by
+        simp [doit, Quote.DQ, Token822.DQ]
+      rw [e, prun_cons]
+      simp only [pstep, stepTop_dq]
+      rw [quote_run (x :: xs) [] []]
+      simp [prun, pfinish]
+    · have hn' : quoteNeed (x :: xs) = false := by simpa using hn
+      obtain ⟨_, hok⟩ := goodDots_of_noNeed _ hn'
+      simp only [hn', Bool.false_eq_true, if_false]
+      have := (plain_run (x :: xs) hok [] [] (Or.inl rfl) (by simp [prun, pfinish])).1
+      simp only [List.append_nil] at this
+      exact ⟨_, this, by simpa using unquote_dotAtomsAux (x :: xs) []⟩
+
+/-- **SMTP round trip.**  For every box (any bytes) and every host without `"`, `\`, `>`, `@`, LF that is
+not a bracketed address of this host, total length at most 899: what qmail-remote's `addrmangle` writes
+between `<` and `>` is read back by qmail-smtpd's `addrparse` as exactly `box@host`, whatever precedes
+the `<` in the argument (`FROM:`, `TO:`), provided that prefix has no `<`. -/
+theorem C17_smtp_roundtrip (cfg : Cfg) (pre box host : Bytes) (hpre : (60 : Byte) ∉ pre)
+    (hh : smtpDomain host = true) (hl : isLocalLiteral cfg host = false)
+    (hlen : (box ++ AT :: host).length ≤ 899) :
+    addrparse cfg (pre ++ 60 :: addrmangle (box ++ AT :: host) ++ [62]) = some (box ++ AT :: host) := by
+  have hat := at_not_in_smtpDomain host hh
+  unfold addrparse
+  have e : pre ++ 60 :: addrmangle (box ++ AT :: host) ++ [62]
+      = pre ++ 60 :: (quote box ++ AT :: host ++ [62]) := by
+    rw [addrmangle_split box host hat]; simp
+  rw [e, afterFirst_skip 60 pre _ hpre]
+  have e2 : quote box ++ AT :: host ++ [62] = quote box ++ AT :: (host ++ [62]) := by simp
+  simp only []
+  rw [e2, stripRoute_quote box (host ++ [62]), ← e2, copy_mangled box host hh, localIp_id cfg box host hat hl]
+  have : ¬ ((box ++ AT :: host).length + 1 > 900) := by omega
+  rw [if_neg this]
+
+/-- Complement: an address of 900 bytes or more is refused (`addrparse` returns 0, the server answers 501). -/
+theorem C17_smtp_toolong (cfg : Cfg) (pre box host : Bytes) (hpre : (60 : Byte) ∉ pre)
+    (hh : smtpDomain host = true) (hl : isLocalLiteral cfg host = false)
+    (hlen : 900 ≤ (box ++ AT :: host).length) :
+    addrparse cfg (pre ++ 60 :: addrmangle (box ++ AT :: host) ++ [62]) = none := by
+  have hat := at_not_in_smtpDomain host hh
+  unfold addrparse
+  have e : pre ++ 60 :: addrmangle (box ++ AT :: host) ++ [62]
+      = pre ++ 60 :: (quote box ++ AT :: host ++ [62]) := by
+    rw [addrmangle_split box host hat]; simp
+  rw [e, afterFirst_skip 60 pre _ hpre]
+  have e2 : quote box ++ AT :: host ++ [62] = quote box ++ AT :: (host ++ [62]) := by simp
+  simp only []
+  rw [e2, stripRoute_quote box (host ++ [62]), ← e2, copy_mangled box host hh, localIp_id cfg box host hat hl]
+  have : (box ++ AT :: host).length + 1 > 900 := by omega
+  rw [if_pos this]
+
+/-- Complement: an address without '@' is sent as it is (no quoting at all). -/
+theorem C17_smtp_nohost (s : Bytes) (h : AT ∉ s) : addrmangle s = s := by
+  simp [addrmangle, splitLast_none AT s h]
+
+/-- **…and through the command line.**  When neither box nor host contains LF, the line qmail-remote
+sends is read by `commands()` as ONE command line, with verb `MAIL` and argument `FROM:<mangled>` —
+to which `C17_smtp_roundtrip` applies (`FROM:` has no `<`). -/
+theorem C17_smtp_commandline (box host rest : Bytes) (hb : LF ∉ box) (hh : smtpDomain host = true) :
+    readLine (mailFromLine (box ++ AT :: host) ++ rest)
+        = some (verbMail ++ SP :: argFrom ++ 60 :: addrmangle (box ++ AT :: host) ++ [62, CR], rest) ∧
+    splitCmd (verbMail ++ SP :: argFrom ++ 60 :: addrmangle (box ++ AT :: host) ++ [62, CR])
+        = (verbMail, argFrom ++ 60 :: addrmangle (box ++ AT :: host) ++ [62]) ∧
+    (60 : Byte) ∉ argFrom := by
+  have hat := at_not_in_smtpDomain host hh
+  have hm : LF ∉ addrmangle (box ++ AT :: host) := by
+    rw [addrmangle_split box host hat]
+    have h1 : LF ∉ quote box := lf_not_in_quote box hb
+    have h2 : LF ∉ host := by
+      intro hmem
+      have := List.all_eq_true.mp hh LF hmem
+      simp [LF] at this
+    simp [h1, h2, LF, AT]
+  refine ⟨?_, ?_, by decide⟩
+  · have e : mailFromLine (box ++ AT :: host) ++ rest
+        = (verbMail ++ SP :: argFrom ++ 60 :: addrmangle (box ++ AT :: host) ++ [62, CR]) ++ LF :: rest := by
+      simp [mailFromLine]
+    rw [e]
+    apply readLine_split
+    simp [verbMail, argFrom, hm, LF, SP, CR]
+  · generalize addrmangle (box ++ AT :: host) = m
+    have hl : (verbMail ++ SP :: argFrom ++ 60 :: m ++ [62, CR]).getLast? = some CR := by
+      have : verbMail ++ SP :: argFrom ++ 60 :: m ++ [62, CR] = (verbMail ++ SP :: argFrom ++ 60 :: m ++ [62]) ++ [CR] := by simp
+      rw [this, List.getLast?_concat]
+    have hd : (verbMail ++ SP :: argFrom ++ 60 :: m ++ [62, CR]).dropLast = verbMail ++ SP :: argFrom ++ 60 :: m ++ [62] := by
+      have : verbMail ++ SP :: argFrom ++ 60 :: m ++ [62, CR] = (verbMail ++ SP :: argFrom ++ 60 :: m ++ [62]) ++ [CR] := by simp
+      rw [this, List.dropLast_concat]
+    simp only [splitCmd, dropLastCR, hl, if_true, hd]
+    simp [verbMail, argFrom, SP, dropSpaces]
+
+/-! ### The envelope
+
+Full statement (design): for every address-list AST `L` (mailboxes, `Name <route-addr>`, groups, comments,
+quoted strings, domain literals, missing commas) and every legal rendering (white space, comments,
+folding), `recipients (addrlist (parse (render L ws))) = (mailboxes L).reverse.map rwgeneric`, and
+`parse (unparse rewritten)` yields the same addresses.  Proved below: the restricted grammar of
+comma-separated plain mailboxes at token level (`C17_envelope_partial`), what `rwgeneric` does to
+`local@host` (`C17_rewrite_*`), the same with comments between tokens and `phrase <…>` items incl. routes
+(`C17_envelope_items`), Bcc removal (`C17_bcc`), the recipient strategies (`C17_modes`).  Missing:
+the lexer side of comments, groups, missing commas, idempotence of unparse→parse; those are covered by the generator-based differential
+of the real qmail-inject and by the re-parse oracles (see notes/C17.md).  NOTE (deviation from the design
+text): the callback order, hence the envelope order, is right-to-left within a field. -/
+
+/-- **Envelope, restricted grammar.**  A field `name: m₁, m₂, …, mₙ` whose mailboxes are plain
+(non-empty; words and `@`/`.` only; no two words adjacent — `sepOk`): `token822_addrlist` succeeds and
+calls the callback exactly once per mailbox, with the whole mailbox, from the last to the first.  (`rs`
+lists the mailboxes right to left, each reversed, exactly as the C callback receives them.) -/
+theorem C17_envelope_partial (cb : List Tok → List Tok) (name colon : Tok) (rs : List (List Tok))
+    (h : ∀ m ∈ rs, m ≠ [] ∧ sepOk true m = true) :
+    let r := addrlist cb (name :: colon :: (bodyRev rs).reverse)
+    r.ok = true ∧ r.got = rs.map cb := by
+  have := fold_list cb rs {} ⟨rfl, rfl, rfl⟩ rfl rfl h
+  simp only [addrlist, List.drop_succ_cons, List.drop_zero, List.reverse_reverse]
+  simpa using this
+
+/-- what then reaches the envelope: with qmail-inject's callback for To/Cc/Bcc (`rwgeneric`, then
+`rwappend`), the recipient strings are the unquoted rewritten mailboxes -/
+theorem C17_envelope_recipients (c : RwCfg) (name colon : Tok) (rs : List (List Tok))
+    (h : ∀ m ∈ rs, m ≠ [] ∧ sepOk true m = true) :
+    (addrlist (rwgeneric c) (name :: colon :: (bodyRev rs).reverse)).got.map addrString
+      = rs.map (fun m => unquote (rwgeneric c m).reverse) := by
+  have := (C17_envelope_partial (rwgeneric c) name colon rs h).2
+  rw [this]
+  simp [addrString]
+
+/-- **Envelope, comments and angle addresses.**  A field `name: i₁, …, iₙ` whose items are plain mailboxes
+with comments anywhere between their tokens (`sepOkC`) or `display-name <…>` with ANYTHING but `<` between
+the brackets (routes, comments, quoted strings, literals) and a display name of words/comments:
+`token822_addrlist` succeeds and calls the callback exactly once per item, last to first, with the item's
+address with the comments removed — in particular a comment inside `<…>` is not part of the address (the
+code as repaired by a66f18c; before, `<(c)@r:u@h>` kept its route).  `its` lists the items right to left. -/
+theorem C17_envelope_items (cb : List Tok → List Tok) (name colon : Tok) (its : List Item)
+    (h : ∀ it ∈ its, it.ok) :
+    let r := addrlist cb (name :: colon :: (bodyRevI its).reverse)
+    r.ok = true ∧ r.got = its.map (fun it => cb it.addr) := by
+  have := fold_items cb its {} ⟨rfl, rfl, rfl⟩ rfl rfl h
+  simp only [addrlist, List.drop_succ_cons, List.drop_zero, List.reverse_reverse]
+  simpa using this
+
+/-- **Rewriting, fully qualified host**: `local@host` whose host (rightmost token an atom not ending in
+`+`) has a dot is left alone. -/
+theorem C17_rewrite_qualified (c : RwCfg) (s : Bytes) (r : List Tok)
+    (hat : (Tok.atom s :: r).contains .at = true) (hlast : (Tok.atom s :: r).getLast? ≠ some .at)
+    (hplus : s.getLast? ≠ some 43) (hdot : beforeAt (· = .dot) (Tok.atom s :: r) = true) :
+    rwgeneric c (.atom s :: r) = .atom s :: r := by
+  rw [rwgeneric_atomHost c s r hat hlast]
+  simp [rwplus, hplus, rwnodot, hdot]
+
+/-- **Rewriting, default domain**: a host without dots (and not a literal, not ending in `+`) gets
+`.defaultdomain` appended (prepended in the reversed list). -/
+theorem C17_rewrite_defaultdomain (c : RwCfg) (s : Bytes) (r : List Tok)
+    (hat : (Tok.atom s :: r).contains .at = true) (hlast : (Tok.atom s :: r).getLast? ≠ some .at)
+    (hplus : s.getLast? ≠ some 43) (hdot : beforeAt (· = .dot) (Tok.atom s :: r) = false)
+    (hlit : beforeAt isLiteral (Tok.atom s :: r) = false) :
+    rwgeneric c (.atom s :: r) = c.defaultdomain.reverse ++ (.atom s :: r) := by
+  rw [rwgeneric_atomHost c s r hat hlast]
+  simp [rwplus, hplus, rwnodot, hdot, hlit]
+
+/-- **Rewriting, plus domain**: a host ending in `+` loses the plus sign and gets `.plusdomain`
+(`plusdomain` = DOT followed by tokens without '@'), and then no default domain. -/
+theorem C17_rewrite_plusdomain (c : RwCfg) (s : Bytes) (r pt : List Tok)
+    (hat : (Tok.atom s :: r).contains .at = true) (hlast : (Tok.atom s :: r).getLast? ≠ some .at)
+    (hplus : s.getLast? = some 43) (hpd : c.plusdomain = .dot :: pt) (hpt : ∀ t ∈ pt, t ≠ Tok.at) :
+    rwgeneric c (.atom s :: r) = c.plusdomain.reverse ++ (.atom s.dropLast :: r) := by
+  rw [rwgeneric_atomHost c s r hat hlast]
+  have hb : beforeAt (· = .dot) (c.plusdomain.reverse ++ (.atom s.dropLast :: r)) = true := by
+    rw [hpd, List.reverse_cons, List.append_assoc]
+    exact beforeAt_prefix _ pt.reverse .dot _ (fun t ht => hpt t (by simpa using ht)) (by simp)
+  simp [rwplus, hplus, rwnodot, hb]
+
+/-- **Rewriting, lone box name**: an address without '@' (not starting with a dot) gets `@defaulthost`,
+to which the plus-domain and default-domain rules are then applied. -/
+theorem C17_rewrite_defaulthost (c : RwCfg) (t : Tok) (r : List Tok)
+    (hno : (t :: r).contains .at = false) (ht : t ≠ .dot) :
+    rwgeneric c (t :: r) = rwnodot c (rwplus c (c.defaulthost.reverse ++ (t :: r))) := by
+  have hmem : Tok.at ∉ (t :: r) := by simpa using hno
+  have ht2 : t ≠ .at := fun e => hmem (by simp [e])
+  have hr : Tok.at ∉ r := fun e => hmem (by simp [e])
+  have hlast : (t :: r).getLast? ≠ some .at := by
+    intro e
+    exact hmem (List.mem_of_getLast? e)
+  have hno' : ¬ (Tok.at = t ∨ Tok.at ∈ r) := by
+    intro e; rcases e with e | e
+    · exact ht2 e.symm
+    · exact hr e
+  cases t <;> simp_all [rwgeneric, rwroute, rwextradot, rwextraat, rwnoat]
+  split <;> simp_all
+
+/-- **The same, as envelope strings.**  With `defaultdomain`/`plusdomain` token lists that unquote to
+`.dd` / `.pd`: a dotless host gives `addr ++ ".dd"`; a host `…h+` gives `…h ++ ".pd"` (the plus sign
+removed); a dotted host gives the address unchanged. -/
+theorem C17_rewrite_strings (c : RwCfg) (s : Bytes) (r pt : List Tok)
+    (hat : (Tok.atom s :: r).contains .at = true) (hlast : (Tok.atom s :: r).getLast? ≠ some .at) :
+    (s.getLast? ≠ some 43 → beforeAt (· = .dot) (Tok.atom s :: r) = true →
+        addrString (rwgeneric c (.atom s :: r)) = addrString (.atom s :: r)) ∧
+    (s.getLast? ≠ some 43 → beforeAt (· = .dot) (Tok.atom s :: r) = false → beforeAt isLiteral (Tok.atom s :: r) = false →
+        addrString (rwgeneric c (.atom s :: r)) = addrString (.atom s :: r) ++ unquote c.defaultdomain) ∧
+    (s.getLast? = some 43 → c.plusdomain = .dot :: pt → (∀ t ∈ pt, t ≠ Tok.at) →
+        addrString (rwgeneric c (.atom s :: r)) = addrString r ++ s.dropLast ++ unquote c.plusdomain) := by
+  refine ⟨?_, ?_, ?_⟩
+  · intro h1 h2; rw [C17_rewrite_qualified c s r hat hlast h1 h2]
+  · intro h1 h2 h3
+    rw [C17_rewrite_defaultdomain c s r hat hlast h1 h2 h3]
+    simp [addrString, unquote_append, unquote]
+  · intro h1 h2 h3
+    rw [C17_rewrite_plusdomain c s r pt hat hlast h1 h2 h3]
+    simp [addrString, unquote_append, unquote, unqTok]
+
+/-- **Sane control values parse to what the rewriting theorems assume**: for a `defaultdomain`/`plusdomain`
+value `d` of unquoted-safe bytes, `token822_parse("." d)` (what `getcontrols` stores) is a DOT followed by
+tokens without '@', and unquotes to `.d`; likewise `"@" d` for `defaulthost`. -/
+theorem C17_control_tokens (d : Bytes) (hd : d.all okChar = true) :
+    (∃ pt, parse (DOT :: d) = some (.dot :: pt) ∧ (∀ t ∈ pt, t ≠ Tok.at) ∧ unquote (.dot :: pt) = DOT :: d) ∧
+    (∃ pt, parse (AT :: d) = some (.at :: pt) ∧ (∀ t ∈ pt, t ≠ Tok.at) ∧ unquote (.at :: pt) = AT :: d) := by
+  have h := (plain_run d hd [] [] (Or.inl rfl) (by simp [prun, pfinish])).1
+  simp only [List.append_nil] at h
+  refine ⟨⟨dotAtomsAux d [], ?_, dotAtomsAux_noAt d [], ?_⟩, ⟨dotAtomsAux d [], ?_, dotAtomsAux_noAt d [], ?_⟩⟩
+  · unfold parse; rw [prun_cons]; simp only [pstep, stepTop_dot, h]; simp
+  · simp [unquote, unqTok, unquote_dotAtomsAux, DOT]
+  · unfold parse; rw [prun_cons]; simp only [pstep, stepTop_at, h]; simp
+  · simp [unquote, unqTok, unquote_dotAtomsAux, AT]
+
+/-- **White space and folding between tokens are ignored** by the tokenizer: any run of SP, TAB, CR, LF
+(so also a fold `LF SP`) at token level disappears, and such a byte ends an atom (`atomok` is false for
+it), so `a@b ,` LF SP `c` tokenizes like `a@b,c`. -/
+theorem C17_parse_blanks (ws rest : Bytes) (h : ws.all isWs = true) :
+    prun .top (ws ++ rest) = prun .top rest ∧ (∀ c ∈ ws, atomok c = false) := by
+  constructor
+  · induction ws with
+    | nil => rfl
+    | cons c ws ih =>
+      simp only [List.all_cons, Bool.and_eq_true] at h
+      have hf := ws_facts c
+      simp only [h.1, Bool.not_true, Bool.false_or, Bool.and_eq_true, Option.isNone_iff_eq_none] at hf
+      rw [List.cons_append, prun_cons]
+      have : pstep .top c = (.top, []) := by simp [pstep, stepTop, hf.1, h.1]
+      rw [this]
+      simp only [ih h.2]
+      cases prun .top rest <;> simp
+  · intro c hc
+    have hw := List.all_eq_true.mp h c hc
+    have hf := ws_facts c
+    simp only [hw, Bool.not_true, Bool.false_or, Bool.and_eq_true, Bool.not_eq_true'] at hf
+    exact hf.2
+
+/-- **Bcc removal.**  A `Bcc` (resp. `Resent-Bcc`) field never reaches the saved header — the output
+message is `generated fields ++ savedh ++ body` — while the addresses its callback collected are
+appended to `hrlist` (resp. `hrrlist`), the lists the envelope is taken from. -/
+theorem C17_bcc (e : Env) (c : RwCfg) (st : ISt) (h : Bytes) (hd : st.dead = none) :
+    (hfieldKnown h = Gen.H_BCC →
+      (doheaderfield e c st h).savedh = st.savedh ∧
+      (doheaderfield e c st h).hrlist = st.hrlist ++ (rewriteField c true h).2.1.map addrString) ∧
+    (hfieldKnown h = Gen.H_R_BCC →
+      (doheaderfield e c st h).savedh = st.savedh ∧
+      (doheaderfield e c st h).hrrlist = st.hrrlist ++ (rewriteField c true h).2.1.map addrString) := by
+  constructor
+  · intro hk
+    simp [doheaderfield, hd, hk, Gen.H_BCC, Gen.H_FROM, Gen.H_MESSAGEID, Gen.H_RETURNPATH, fieldClass, fieldDropped,
+      Gen.H_TO, Gen.H_CC, Gen.H_APPARENTLYTO, Gen.H_R_BCC, Gen.H_CONTENTLENGTH]
+    split <;> simp
+  · intro hk
+    simp [doheaderfield, hd, hk, Gen.H_BCC, Gen.H_FROM, Gen.H_MESSAGEID, Gen.H_RETURNPATH, fieldClass, fieldDropped,
+      Gen.H_TO, Gen.H_CC, Gen.H_APPARENTLYTO, Gen.H_R_BCC, Gen.H_R_TO, Gen.H_R_CC, Gen.H_CONTENTLENGTH]
+    split <;> simp
+
+/-- **Recipient strategies and which fields feed which list.**  `-a`: the arguments only; `-h`/`-H` and the
+default: header recipients — `hrrlist` (Resent-To/Cc/Bcc) if any Resent- field was seen, else `hrlist`
+(To/Cc/Bcc/Apparently-To) — after the arguments; the default strategy is `-a` when there are arguments and
+`-h` otherwise.  To, Cc, Bcc, Apparently-To feed `hrlist`; Resent-To, Resent-Cc, Resent-Bcc feed `hrrlist`;
+Return-Path sets the sender; the sender fields are only rewritten; Bcc, Resent-Bcc, Return-Path and
+Content-Length are dropped from the header. -/
+theorem C17_modes (rl : List Bytes) (st : ISt) (a : Args) :
+    envelopeRecips 2 rl st = rl ∧
+    envelopeRecips 3 rl st = rl ++ (if isResent st then st.hrrlist else st.hrlist) ∧
+    envelopeRecips 4 rl st = rl ++ (if isResent st then st.hrrlist else st.hrlist) ∧
+    (a.strategy = 1 → effStrategy a = if a.recips.isEmpty then 3 else 2) ∧
+    (a.strategy ≠ 1 → effStrategy a = a.strategy) ∧
+    [Gen.H_TO, Gen.H_CC, Gen.H_BCC, Gen.H_APPARENTLYTO].map fieldClass = [(1, true), (1, true), (1, true), (1, true)] ∧
+    [Gen.H_R_TO, Gen.H_R_CC, Gen.H_R_BCC].map fieldClass = [(2, true), (2, true), (2, true)] ∧
+    fieldClass Gen.H_RETURNPATH = (3, false) ∧
+    [Gen.H_SUBJECT, Gen.H_DATE, Gen.H_RECEIVED, Gen.H_MAILFOLLOWUPTO, 0].map fieldClass
+      = [(0, false), (0, false), (0, false), (0, false), (0, false)] ∧
+    (List.range Gen.H_NUM).filter fieldDropped = [Gen.H_BCC, Gen.H_R_BCC, Gen.H_RETURNPATH, Gen.H_CONTENTLENGTH] := by
+  refine ⟨by simp [envelopeRecips], by simp [envelopeRecips], by simp [envelopeRecips], ?_, ?_, by decide, by decide,
+    by decide, by decide, by decide⟩
+  · intro h; simp [effStrategy, h]
+  · intro h; simp [effStrategy, h]
+
+/-! ### Non-vacuity: concrete inputs meeting the hypotheses (bytes written out) -/
+
+/-- the local part `a b"\` CR (needs quoting) at domain `x.y`: quoted as `"a b\"\\\<CR>"@x.y` -/
+example : quote2 [97, 32, 98, 34, 92, 13, 64, 120, 46, 121]
+    = [34, 97, 32, 98, 92, 34, 92, 92, 92, 13, 34, 64, 120, 46, 121] := by decide
+example : parse [34, 97, 32, 98, 92, 34, 92, 92, 92, 13, 34, 64, 120, 46, 121]
+    = some [.quote [97, 32, 98, 34, 92, 13], .at, .atom [120], .dot, .atom [121]] := by decide
+example : saneDomain [120, 46, 121] = true := by decide
+example : saneDomain [91, 49, 46, 50, 46, 51, 46, 52, 93] = true := by decide
+example : smtpDomain [120, 46, 121] = true := by decide
+example : isLocalLiteral { liphost := some [108], ipme := [[127, 0, 0, 1]] } [120, 46, 121] = false := by decide
+/-- `[127.0.0.1]` IS a local literal for that configuration (the excluded case) -/
+example : isLocalLiteral { liphost := some [108], ipme := [[127, 0, 0, 1]] } [91, 49, 50, 55, 46, 48, 46, 48, 46, 49, 93] = true := by decide
+/-- `a.b@x` needs no quoting and has the dot-atom shape -/
+example : parse (quote2 [97, 46, 98, 64, 120]) = some [.atom [97], .dot, .atom [98], .at, .atom [120]] := by decide
+
+/-- `To: a@b, c` as tokens; the callback sees `c` first, then `a@b` (reversed: b @ a) -/
+example : (addrlist id [.atom [84, 111], .colon, .atom [97], .at, .atom [98], .comma, .atom [99]]).got
+    = [[.atom [99]], [.atom [98], .at, .atom [97]]] := by decide
+example : bodyRev [[.atom [99]], [.atom [98], .at, .atom [97]]] = [.atom [99], .comma, .atom [98], .at, .atom [97]] := by decide
+example : sepOk true [.atom [98], .at, .atom [97]] = true := by decide
+/-- `a@b+` with plusdomain `.p.q` becomes `a@b.p.q` -/
+example : rwgeneric { defaulthost := [.at, .atom [104]], defaultdomain := [.dot, .atom [100]],
+                      plusdomain := [.dot, .atom [112], .dot, .atom [113]] } [.atom [98, 43], .at, .atom [97]]
+    = [.atom [113], .dot, .atom [112], .dot, .atom [98], .at, .atom [97]] := by decide
+
+/-- `To: a@b, J (x) <(c)@r:u@h>`: the callback gets `@r:u@h` (reversed) without the comment `(c)`, then `a@b` -/
+example : (addrlist id [.atom [84, 111], .colon, .atom [97], .at, .atom [98], .comma, .atom [74], .comment [120], .left,
+      .comment [99], .at, .atom [114], .colon, .atom [117], .at, .atom [104], .right]).got
+    = [[.atom [104], .at, .atom [117], .colon, .atom [114], .at], [.atom [98], .at, .atom [97]]] := by decide
+example : (Item.angle [.atom [104], .at, .atom [117], .colon, .atom [114], .at, .comment [99]] [.comment [120], .atom [74]]).toks
+    = [.right, .atom [104], .at, .atom [117], .colon, .atom [114], .at, .comment [99], .left, .comment [120], .atom [74]] := by decide
+/-- with qmail-inject's callback the route is stripped and the host qualified: `u@h.d` -/
+example : rwgeneric { defaulthost := [.at, .atom [104]], defaultdomain := [.dot, .atom [100]], plusdomain := [.dot, .atom [112]] }
+      [.atom [104], .at, .atom [117], .colon, .atom [114], .at]
+    = [.atom [100], .dot, .atom [104], .at, .atom [117]] := by decide
+
+end Nq.Props.C17
